@@ -440,7 +440,13 @@ def concat_pool():
     wide_b = model.MT(1, model.mk_tokens(5, words=['a', 'b', 'c', 'd', 'e'], pos=['A', 'B', 'C', 'D', 'E']),
                       ('VROOT', '--', (('VP', '--', (('NP', 'OA', (1, 2, 3, 4)), 5)),)))
     cont = [(1, 2), ((1, 2), 3), (1, (2, 3)), ((1,), 2, 3), ((1, 2), (3, 4)), (1, 2, 3)]
-    return ([[_mt(sh, 1, i)] for i, sh in enumerate(shs)] + [[_mt(shs[0], 1, 1), _mt(shs[3], 2, 2)], [None], [wide_a], [wide_b]],
+    # the same bare production once continuous, once with a gap
+    vp_c = model.MT(1, model.mk_tokens(3, words=['a', 'b', 'c'], pos=['A', 'B', 'A']),
+                    ('VROOT', '--', (('VP', 'HD', (1, 2)), 3)))
+    vp_d = model.MT(1, model.mk_tokens(3, words=['a', 'c', 'b'], pos=['A', 'A', 'B']),
+                    ('VROOT', '--', (('VP', 'HD', (1, 3)), 2)))
+    return ([[_mt(sh, 1, i)] for i, sh in enumerate(shs)] + [[_mt(shs[0], 1, 1), _mt(shs[3], 2, 2)], [None], [wide_a], [wide_b],
+             [vp_c], [vp_d]],
             [[_mt(sh, 1, i)] for i, sh in enumerate(cont)] + [[_mt(cont[1], 1, 1), _mt(cont[4], 2, 2)]])
 
 
